@@ -93,7 +93,7 @@ func main() {
 		genF8(add)
 		genF9(add)
 		genF11(add)
-		// F10: every decoder count 1..34 (channel capacities 10/n change at 2,3,4,6,11) on files of 0..8 blocks
+		// F10: every decoder count 1..34 (channel capacities 10/n change at 2,3,4,6,11) on files of 0..8, 14, 15, 20 and 27 blocks
 		if os.Getenv("C01_PROCS") == "" {
 			only = nil
 			for p := 1; p <= 34; p++ {
@@ -483,6 +483,15 @@ func genF6(add func(tcase)) {
 				File: &pbfgen.File{Header: &pbfgen.Header{Required: rq, BBox: &[4]int64{0, 0, 0, 0}}, Blocks: []pbfgen.Block{{Groups: mixedGroups(10, false)}}}})
 		}
 	}
+	// present-but-zero header fields: a field that is present with its zero value
+	// is still present (replication timestamp 0 is 1970-01-01, not "no timestamp")
+	for _, ts := range []int64{0, -1, 1, 1 << 31, 253402300799} {
+		for _, seq := range []int64{0, 1} {
+			h := &pbfgen.Header{ReplTimestamp: pbfgen.I64(ts), ReplSeq: pbfgen.I64(seq), ReplURL: pbfgen.Str(""), WritingProgram: pbfgen.Str(""), Source: pbfgen.Str("")}
+			add(tcase{Family: "F6", Desc: fmt.Sprintf("replication timestamp=%d seq=%d, empty strings", ts, seq), NonTrivial: true,
+				File: &pbfgen.File{Header: h, Blocks: []pbfgen.Block{{Groups: mixedGroups(10, false)}}}})
+		}
+	}
 	// header only, no data blocks
 	add(tcase{Family: "F6", Desc: "header only", NonTrivial: true, File: &pbfgen.File{Header: pbfgen.StdHeader()}})
 }
@@ -650,7 +659,9 @@ func genF11(add func(tcase)) {
 // ---- F10: decoder-count sweep ----
 
 func genF10(add func(tcase)) {
-	for nb := 0; nb <= 8; nb++ {
+	// 14 and more blocks: one decoder runs further ahead of the consumer than any
+	// fixed pool of buffers it may recycle (channel capacities add up to ~13 blocks)
+	for _, nb := range []int{0, 1, 2, 3, 4, 5, 6, 7, 8, 14, 15, 20, 27} {
 		var blocks []pbfgen.Block
 		for i := 0; i < nb; i++ {
 			g := mixedGroups(int64(100*(i+1)), i%2 == 0)
